@@ -9,7 +9,7 @@ Open Scope N_scope.
 Section SchemaInd.
   Context (P : schema -> Prop).
   Context (HInt : forall c, P (SInt c)) (HNum : P SNum) (HStr : forall lo hi, P (SStr lo hi))
-          (HBool : P SBool) (HNullT : P SNullT) (HEnum : forall vs, P (SEnum vs))
+          (HBool : P SBool) (HNullT : P SNullT) (HAnyT : P SAnyT) (HEnum : forall vs, P (SEnum vs))
           (HNullable : forall s, P s -> P (SNullable s))
           (HArr : forall s lo hi, P s -> P (SArr s lo hi))
           (HMap : forall s, P s -> P (SMap s))
@@ -23,6 +23,7 @@ Section SchemaInd.
     | SStr lo hi => HStr lo hi
     | SBool => HBool
     | SNullT => HNullT
+    | SAnyT => HAnyT
     | SEnum vs => HEnum vs
     | SNullable s' => HNullable s' (schema_ind' s')
     | SArr s' lo hi => HArr s' lo hi (schema_ind' s')
@@ -59,11 +60,11 @@ Proof.
     destruct (str_eqb f v) eqn:E3; [|reflexivity]. apply str_eqb_eq in E3. auto.
 Qed.
 
-Lemma wire_mk_field p n : wire (fst (mk_field p n)) = wire2 n.
+Lemma wire_mk_field rq p n : wire (fst (mk_field rq p n)) = wire2 n.
 Proof. reflexivity. Qed.
 
-Lemma zip_wires : forall ps ns, map wire2 ns = map fst ps ->
-  map (fun f => wire (fst f)) (zip_fields ps ns) = map fst ps.
+Lemma zip_wires rq : forall ps ns, map wire2 ns = map fst ps ->
+  map (fun f => wire (fst f)) (zip_fields rq ps ns) = map fst ps.
 Proof.
   induction ps as [|p ps IH]; intros [|n ns] H; cbn [zip_fields map] in *; try discriminate; auto.
   injection H as H1 H2. rewrite wire_mk_field, H1, (IH _ H2). reflexivity.
@@ -75,18 +76,42 @@ Proof.
 Qed.
 
 (* ---- small facts ----------------------------------------------------------------------------- *)
-Lemma gen_topt_inv o fc p s t : gen o fc p s = TOpt t -> is_snullable s = true.
+Definition union_base (ts : list pytype) : pytype := match ts with [t] => t | _ => TUnion ts end.
+Definition alt_types (o : opts) (fc rq : bool) (alts : list schema) : list pytype :=
+  flat_map (fun a => if is_snullt a then [] else [gen o fc rq PIn a]) alts.
+
+Lemma gen_any o fc rq p alts :
+  gen o fc rq p (SAny alts) =
+  if existsb is_snullt alts then TOpt (union_base (alt_types o fc rq alts)) else TUnion (alt_types o fc rq alts).
+Proof. reflexivity. Qed.
+
+Lemma accepts_union_base ts v : accepts (union_base ts) v = existsb (fun t => accepts t v) ts.
 Proof.
-  destruct s; cbn [gen]; intro H; try discriminate; auto.
-  all: try (destruct (cnormalize _); discriminate); try (destruct (drops_bounds fc p); discriminate); try (destruct (keeps_counts fc p); discriminate);
-    try (destruct (assign_names _ _ _ _ _ _); discriminate).
+  destruct ts as [|t [|t' r]]; cbn [union_base accepts existsb]; auto. rewrite orb_false_r. reflexivity.
 Qed.
 
-Lemma gen_tnone_inv o fc p s : gen o fc p s = TNone -> s = SNullT.
+Lemma in_alt_types o fc rq alts t :
+  In t (alt_types o fc rq alts) <-> exists a, In a alts /\ is_snullt a = false /\ t = gen o fc rq PIn a.
 Proof.
-  destruct s; cbn [gen]; intro H; try discriminate; auto.
-  all: try (destruct (cnormalize _); discriminate); try (destruct (drops_bounds fc p); discriminate); try (destruct (keeps_counts fc p); discriminate);
-    try (destruct (assign_names _ _ _ _ _ _); discriminate).
+  unfold alt_types. rewrite in_flat_map. split.
+  - intros [a [Ha Ht]]. destruct (is_snullt a) eqn:E; [contradiction|]. destruct Ht as [<-|[]]. eauto.
+  - intros [a [Ha [E ->]]]. exists a. split; [exact Ha|]. rewrite E. left. reflexivity.
+Qed.
+
+Lemma gen_topt_inv o fc rq p s t : gen o fc rq p s = TOpt t -> is_snullable s = true.
+Proof.
+  destruct s; try rewrite gen_any; cbn [gen is_snullable]; intro H; try discriminate; auto.
+  all: try (destruct (cnormalize _); discriminate); try (destruct (drops_bounds fc p); discriminate);
+    try (destruct (keeps_counts fc p); discriminate); try (destruct (assign_names _ _ _ _ _ _); discriminate).
+  destruct (existsb is_snullt alts); [reflexivity|discriminate].
+Qed.
+
+Lemma gen_tnone_inv o fc rq p s : gen o fc rq p s = TNone -> s = SNullT.
+Proof.
+  destruct s; try rewrite gen_any; cbn [gen]; intro H; try discriminate; auto.
+  all: try (destruct (cnormalize _); discriminate); try (destruct (drops_bounds fc p); discriminate);
+    try (destruct (keeps_counts fc p); discriminate); try (destruct (assign_names _ _ _ _ _ _); discriminate).
+  destruct (existsb is_snullt alts); discriminate.
 Qed.
 
 Lemma accepts_strip t x : accepts t x = true -> (is_opt t && v_is_null x) || accepts (strip_opt t) x = true.
@@ -95,10 +120,10 @@ Proof.
   all: cbn [accepts]; intro H; try (apply orb_true_iff in H as [H|H]); rewrite H; auto using orb_true_r.
 Qed.
 
-Definition conv (o : opts) (fc : bool) (p : str * (bool * schema)) : str * (bool * pytype) :=
-  (fst p, (fst (snd p), gen o fc PTop (snd (snd p)))).
+Definition conv (o : opts) (fc rq : bool) (p : str * (bool * schema)) : str * (bool * pytype) :=
+  (fst p, (fst (snd p), gen o fc rq PTop (snd (snd p)))).
 
-Lemma map_fst_conv o fc props : map fst (map (conv o fc) props) = map fst props.
+Lemma map_fst_conv o fc rq props : map fst (map (conv o fc rq) props) = map fst props.
 Proof. rewrite map_map. reflexivity. Qed.
 
 Lemma names_total o : utab_ok U0 = true -> prefix_ok U0 (o_prefix o) = true ->
@@ -109,7 +134,7 @@ Qed.
 
 (* ---- acceptance ------------------------------------------------------------------------------ *)
 Section Accept.
-  Context (o : opts) (fc : bool) (Hno : o_noalias o = false).
+  Context (o : opts) (fc rq : bool) (Hno : o_noalias o = false).
 
   Definition vfun (m : list (str * json)) (p : str * (bool * schema)) : bool :=
     match jlookup (fst p) m with None => negb (fst (snd p)) | Some x => valid (snd (snd p)) x end.
@@ -122,14 +147,14 @@ Section Accept.
   Lemma fields_accept m : forall props ns,
     map wire2 ns = map fst props ->
     Forall (fun p => forall p0 v, supported (snd (snd p)) = true -> valid (snd (snd p)) v = true ->
-                                   accepts (gen o fc p0 (snd (snd p))) v = true) props ->
-    forallb (fun p => negb (fst (snd p) && is_snullable (snd (snd p))) && supported (snd (snd p))) props = true ->
+                                   accepts (gen o fc rq p0 (snd (snd p))) v = true) props ->
+    forallb (fun p => supported (snd (snd p))) props = true ->
     forallb (vfun m) props = true ->
-    forallb (afun m) (zip_fields (map (conv o fc) props) ns) = true.
+    forallb (afun m) (zip_fields rq (map (conv o fc rq) props) ns) = true.
   Proof.
     induction props as [|p props IH]; intros [|n ns] Hw HF HS HV; cbn [zip_fields map forallb] in *; try discriminate; auto.
     injection Hw as Hw1 Hw2. inversion HF as [|? ? Hp HF']; subst.
-    apply andb_true_iff in HS as [HS1 HS2]. apply andb_true_iff in HS1 as [_ HS1].
+    apply andb_true_iff in HS as [HS1 HS2].
     apply andb_true_iff in HV as [HV1 HV2].
     apply andb_true_iff. split; [|apply IH; auto].
     unfold afun. rewrite wire_mk_field, Hw1. unfold vfun in HV1.
@@ -141,12 +166,13 @@ Section Accept.
     - apply negb_true_iff in HV1. rewrite HV1. reflexivity.
   Qed.
 
+
   Context (Hnames : forall fields, exists names, assign_names U0 Pyd o [] [] fields = Some names).
 
   Theorem accept_valid : forall s p v,
-    supported s = true -> valid s v = true -> accepts (gen o fc p s) v = true.
+    supported s = true -> valid s v = true -> accepts (gen o fc rq p s) v = true.
   Proof.
-    induction s as [c| |lo hi| | |vs|s IH|s lo hi IH|s IH|alts IH|props closed IH] using schema_ind';
+    induction s as [c| |lo hi| | | |vs|s IH|s lo hi IH|s IH|alts IH|props closed IH] using schema_ind';
       intros p v HS HV; cbn [gen valid accepts supported] in *; auto.
     - destruct (cnormalize c) as [c'|] eqn:E; [|discriminate].
       destruct v; try discriminate.
@@ -156,14 +182,21 @@ Section Accept.
     - apply orb_true_iff in HV as [HV|HV]; [rewrite HV; reflexivity|].
       rewrite (IH p v HS HV). apply orb_true_r.
     - destruct v; try discriminate. apply andb_true_iff in HV as [HL HV].
-      assert (HA : forallb (accepts (gen o fc PIn s)) l = true).
+      assert (HA : forallb (accepts (gen o fc rq PIn s)) l = true).
       { apply forallb_forall. intros x Hx. apply IH; auto. eapply forallb_forall in HV; eauto. }
       destruct (keeps_counts fc p); cbn [accepts]; rewrite HA; [rewrite HL; reflexivity|reflexivity].
     - destruct v; try discriminate. cbn [accepts]. apply forallb_forall. intros kv Hkv.
       apply IH; auto. eapply forallb_forall in HV; [|exact Hkv]. exact HV.
-    - cbn [accepts]. apply existsb_exists in HV as [a [Ha HV]]. apply existsb_exists.
-      exists (gen o fc PIn a). split; [apply in_map; exact Ha|].
-      rewrite Forall_forall in IH. apply IH; auto. eapply forallb_forall in HS; eauto.
+    - fold (alt_types o fc rq alts). apply existsb_exists in HV as [a [Ha HV]].
+      assert (HX : is_snullt a = false -> existsb (fun t => accepts t v) (alt_types o fc rq alts) = true).
+      { intro En. apply existsb_exists. exists (gen o fc rq PIn a). split; [apply in_alt_types; eauto|].
+        rewrite Forall_forall in IH. apply IH; auto. eapply forallb_forall in HS; eauto. }
+      destruct (existsb is_snullt alts) eqn:EN; cbn [accepts].
+      + fold (union_base (alt_types o fc rq alts)). rewrite accepts_union_base.
+        destruct (is_snullt a) eqn:En; [|rewrite (HX eq_refl); apply orb_true_r].
+        destruct a; try discriminate. cbn [valid] in HV. rewrite HV. reflexivity.
+      + apply HX. destruct (is_snullt a) eqn:En; [|reflexivity].
+        exfalso. assert (existsb is_snullt alts = true) by (apply existsb_exists; eauto). congruence.
     - apply andb_true_iff in HS as [HN HS].
       destruct (Hnames (map fst props)) as [names E]. rewrite E.
       pose proof (assign_names_wire Pyd o Hno _ _ _ E) as HW.
@@ -176,7 +209,7 @@ End Accept.
 
 (* ---- rejection on the strict sub-language --------------------------------------------------- *)
 Section Reject.
-  Context (o : opts) (fc : bool) (Hno : o_noalias o = false).
+  Context (o : opts) (fc rq : bool) (Hno : o_noalias o = false).
 
   Definition rfun (m : list (str * json)) (p : str * (bool * schema)) : bool :=
     match jlookup (fst p) m with
@@ -187,24 +220,29 @@ Section Reject.
   Lemma fields_reject m : forall props ns,
     map wire2 ns = map fst props ->
     Forall (fun p => forall p0 v, supported (snd (snd p)) = true -> strict fc p0 (snd (snd p)) = true ->
-                                   accepts (gen o fc p0 (snd (snd p))) v = true ->
+                                   accepts (gen o fc rq p0 (snd (snd p))) v = true ->
                                    valid_relaxed (snd (snd p)) v = true) props ->
-    forallb (fun p => negb (fst (snd p) && is_snullable (snd (snd p))) && supported (snd (snd p))) props = true ->
-    forallb (fun p => strict fc PTop (snd (snd p))) props = true ->
-    forallb (afun m) (zip_fields (map (conv o fc) props) ns) = true ->
+    forallb (fun p => supported (snd (snd p))) props = true ->
+    forallb (fun p => negb (fst (snd p) && is_snullable (snd (snd p))) && strict fc PTop (snd (snd p))) props = true ->
+    forallb (afun m) (zip_fields rq (map (conv o fc rq) props) ns) = true ->
     forallb (rfun m) props = true.
   Proof.
     induction props as [|p props IH]; intros [|n ns] Hw HF HS HT HA; cbn [zip_fields map forallb] in *; try discriminate; auto.
     injection Hw as Hw1 Hw2. inversion HF as [|? ? Hp HF']; subst.
     apply andb_true_iff in HS as [HS1 HS2]. apply andb_true_iff in HT as [HT1 HT2].
-    apply andb_true_iff in HS1 as [HT0 HS1].
+    apply andb_true_iff in HT1 as [HT0 HT1].
     apply andb_true_iff in HA as [HA1 HA2].
     apply andb_true_iff. split; [|eapply IH; eauto].
     unfold afun in HA1. rewrite wire_mk_field, Hw1 in HA1. unfold rfun.
     cbn [mk_field conv fst snd f_req f_null] in HA1.
     destruct p as [nm [req s]]. cbn [fst snd] in *.
+    assert (Hreq : req && (rq || negb (is_topt (gen o fc rq PTop s))) = req).
+    { destruct req; cbn [andb]; auto. cbn [andb] in HT0. apply negb_true_iff in HT0.
+      destruct (gen o fc rq PTop s) eqn:G; cbn; auto using orb_true_r.
+      apply gen_topt_inv in G. congruence. }
+    rewrite Hreq in HA1.
     destruct (jlookup nm m) as [x|]; [|exact HA1].
-    destruct (gen o fc PTop s) eqn:G; cbn [is_opt strip_opt orb] in HA1;
+    destruct (gen o fc rq PTop s) eqn:G; cbn [is_opt strip_opt orb] in HA1;
       try (rewrite <- G in HA1;
            apply orb_true_iff in HA1 as [HA1|HA1];
            [apply andb_true_iff in HA1 as [H1 H2]; rewrite orb_false_r in H1; rewrite H1, H2; reflexivity
@@ -215,7 +253,7 @@ Section Reject.
       + apply andb_true_iff in HA1 as [_ H2]. rewrite H2. apply orb_true_r.
       + cbn [accepts] in HA1. rewrite HA1. apply orb_true_r.
     - (* TOpt: the schema is [T, null] *)
-      assert (HX : accepts (gen o fc PTop s) x = true).
+      assert (HX : accepts (gen o fc rq PTop s) x = true).
       { rewrite G. cbn [accepts]. apply orb_true_iff in HA1 as [HA1|HA1].
         - apply andb_true_iff in HA1 as [_ H2]. rewrite H2. reflexivity.
         - rewrite HA1. apply orb_true_r. }
@@ -225,9 +263,9 @@ Section Reject.
   Context (Hnames : forall fields, exists names, assign_names U0 Pyd o [] [] fields = Some names).
 
   Theorem reject_invalid : forall s p v,
-    supported s = true -> strict fc p s = true -> accepts (gen o fc p s) v = true -> valid_relaxed s v = true.
+    supported s = true -> strict fc p s = true -> accepts (gen o fc rq p s) v = true -> valid_relaxed s v = true.
   Proof.
-    induction s as [c| |lo hi| | |vs|s IH|s lo hi IH|s IH|alts IH|props closed IH] using schema_ind';
+    induction s as [c| |lo hi| | | |vs|s IH|s lo hi IH|s IH|alts IH|props closed IH] using schema_ind';
       intros p v HS HT HA; cbn [gen valid_relaxed accepts supported strict] in *; auto.
     - assert (Hc : (if drops_bounds fc p then c_none else c) = c).
       { destruct (drops_bounds fc p); [|reflexivity]. cbn [negb orb] in HT. symmetry. apply c_is_none_eq. exact HT. }
@@ -239,7 +277,7 @@ Section Reject.
     - apply orb_true_iff in HA as [HA|HA]; [rewrite HA; reflexivity|].
       rewrite (IH p v HS HT HA). apply orb_true_r.
     - apply andb_true_iff in HT as [HT1 HT2].
-      assert (HB : forall l, forallb (accepts (gen o fc PIn s)) l = true -> forallb (valid_relaxed s) l = true).
+      assert (HB : forall l, forallb (accepts (gen o fc rq PIn s)) l = true -> forallb (valid_relaxed s) l = true).
       { intros l H. apply forallb_forall. intros x Hx. eapply IH; eauto. eapply forallb_forall in H; eauto. }
       destruct (keeps_counts fc p) eqn:Etf; cbn [orb] in HT1.
       + destruct v; try discriminate. cbn [accepts] in HA. apply andb_true_iff in HA as [HL HA].
@@ -249,9 +287,17 @@ Section Reject.
         rewrite HL, (HB _ HA). reflexivity.
     - destruct v; try discriminate. cbn [accepts] in HA. apply forallb_forall. intros kv Hkv.
       eapply forallb_forall in HA; [|exact Hkv]. eapply IH; eauto.
-    - cbn [accepts] in HA. apply existsb_exists in HA as [t [Ht HA]]. apply in_map_iff in Ht as [a [<- Ha]].
-      apply existsb_exists. exists a. split; [exact Ha|].
-      rewrite Forall_forall in IH. eapply IH; eauto; eapply forallb_forall; eauto.
+    - fold (alt_types o fc rq alts) in HA.
+      assert (HX : existsb (fun t => accepts t v) (alt_types o fc rq alts) = true -> existsb (fun a => valid_relaxed a v) alts = true).
+      { intro H. apply existsb_exists in H as [t [Ht H]]. apply in_alt_types in Ht as [a [Ha [En ->]]].
+        apply existsb_exists. exists a. split; [exact Ha|].
+        rewrite Forall_forall in IH. eapply IH; eauto; eapply forallb_forall; eauto. }
+      destruct (existsb is_snullt alts) eqn:EN; cbn [accepts] in HA.
+      + fold (union_base (alt_types o fc rq alts)) in HA. rewrite accepts_union_base in HA.
+        apply orb_true_iff in HA as [HA|HA]; [|exact (HX HA)].
+        apply existsb_exists in EN as [a [Ha En]]. destruct a; try discriminate.
+        apply existsb_exists. exists SNullT. split; [exact Ha|exact HA].
+      + exact (HX HA).
     - apply andb_true_iff in HS as [HN HS].
       destruct (Hnames (map fst props)) as [names E]. rewrite E in HA.
       pose proof (assign_names_wire Pyd o Hno _ _ _ E) as HW.
@@ -262,17 +308,17 @@ Section Reject.
   Qed.
 End Reject.
 
-Lemma zip_pynames : forall ps ns, List.length ns = List.length ps ->
-  map (fun f => f_py (fst f)) (zip_fields ps ns) = map fst ns.
+Lemma zip_pynames rq : forall ps ns, List.length ns = List.length ps ->
+  map (fun f => f_py (fst f)) (zip_fields rq ps ns) = map fst ns.
 Proof.
   induction ps as [|p ps IH]; intros [|n ns] HL; cbn [zip_fields map List.length] in *; try discriminate; auto.
   injection HL as HL. rewrite (IH _ HL). reflexivity.
 Qed.
 
 (* ---- member wire names: dumping by alias gives the schema's member names back -------------- *)
-Theorem model_wire_names o fc props closed :
+Theorem model_wire_names o fc rq props closed :
   o_noalias o = false -> utab_ok U0 = true -> prefix_ok U0 (o_prefix o) = true ->
-  exists fields, gen o fc PTop (SObj props closed) = TModel fields closed
+  exists fields, gen o fc rq PTop (SObj props closed) = TModel fields closed
     /\ map (fun f => wire (fst f)) fields = map fst props
     /\ NoDup (map (fun f => f_py (fst f)) fields).
 Proof.
@@ -285,9 +331,27 @@ Proof.
 Qed.
 
 (* ---- the two constraint styles generate the same class tree -------------------------------- *)
-Theorem gen_fc_invariant o : forall s p, place_free p s = true -> gen o true p s = gen o false p s.
+Lemma existsb_ext_in' {A} (f g : A -> bool) l : (forall a, In a l -> f a = g a) -> existsb f l = existsb g l.
 Proof.
-  induction s as [c| |lo hi| | |vs|s IH|s lo hi IH|s IH|alts IH|props closed IH] using schema_ind';
+  induction l as [|x r IH]; intro H; cbn [existsb]; [reflexivity|].
+  rewrite (H x (or_introl eq_refl)), IH; [reflexivity|]. intros a Ha. apply H. right. exact Ha.
+Qed.
+
+Lemma flat_map_ext_in {A B} (f g : A -> list B) l : (forall a, In a l -> f a = g a) -> flat_map f l = flat_map g l.
+Proof.
+  induction l as [|x r IH]; intro H; cbn [flat_map]; [reflexivity|].
+  rewrite (H x (or_introl eq_refl)), IH; [reflexivity|]. intros a Ha. apply H. right. exact Ha.
+Qed.
+
+Lemma flat_map_map {A B C} (g : A -> B) (f : B -> list C) l : flat_map f (map g l) = flat_map (fun a => f (g a)) l.
+Proof. induction l as [|x r IH]; cbn [flat_map map]; [reflexivity|]. rewrite IH. reflexivity. Qed.
+
+Lemma existsb_map {A B} (g : A -> B) (f : B -> bool) l : existsb f (map g l) = existsb (fun a => f (g a)) l.
+Proof. induction l as [|x r IH]; cbn [existsb map]; [reflexivity|]. rewrite IH. reflexivity. Qed.
+
+Theorem gen_fc_invariant o rq : forall s p, place_free p s = true -> gen o true rq p s = gen o false rq p s.
+Proof.
+  induction s as [c| |lo hi| | | |vs|s IH|s lo hi IH|s IH|alts IH|props closed IH] using schema_ind';
     intros p HF; cbn [gen place_free] in *; auto.
   - destruct p; cbn [drops_bounds is_pval andb negb orb] in *; auto.
     apply c_is_none_eq in HF. subst c. reflexivity.
@@ -298,8 +362,10 @@ Proof.
     destruct p; cbn [keeps_counts is_pin negb orb] in *; auto.
     destruct lo; [discriminate|]. destruct hi; [discriminate|]. reflexivity.
   - rewrite (IH PVal HF). reflexivity.
-  - f_equal. apply map_ext_in. intros a Ha. rewrite Forall_forall in IH. apply IH; auto.
-    eapply forallb_forall in HF; [|exact Ha]. exact HF.
+  - assert (E : alt_types o true rq alts = alt_types o false rq alts).
+    { apply flat_map_ext_in. intros a Ha. destruct (is_snullt a); [reflexivity|]. f_equal.
+      rewrite Forall_forall in IH. apply IH; auto. eapply forallb_forall in HF; [|exact Ha]. exact HF. }
+    change (gen o true rq p (SAny alts) = gen o false rq p (SAny alts)). rewrite !gen_any, E. reflexivity.
   - destruct (assign_names U0 Pyd o [] [] (map fst props)) as [names|]; [|reflexivity].
     f_equal. f_equal. apply map_ext_in. intros q Hq. rewrite Forall_forall in IH.
     rewrite (IH q Hq PTop); [reflexivity|]. eapply forallb_forall in HF; [|exact Hq]. exact HF.
@@ -323,9 +389,9 @@ Lemma map_fst_keep {A B C} (g : A * B -> C) (l : list (A * B)) :
   map fst (map (fun q => (fst q, g q)) l) = map fst l.
 Proof. rewrite map_map. reflexivity. Qed.
 
-Theorem gen_draft_invariant o fc : forall s p, gen o fc p (to_d6 s) = gen o fc p s.
+Theorem gen_draft_invariant o fc rq : forall s p, gen o fc rq p (to_d6 s) = gen o fc rq p s.
 Proof.
-  induction s as [c| |lo hi| | |vs|s IH|s lo hi IH|s IH|alts IH|props closed IH] using schema_ind';
+  induction s as [c| |lo hi| | | |vs|s IH|s lo hi IH|s IH|alts IH|props closed IH] using schema_ind';
     intros p; cbn [gen to_d6]; auto.
   - destruct (drops_bounds fc p); [reflexivity|].
     unfold to_draft6. destruct (cnormalize c) as [c'|] eqn:E; [|rewrite E; reflexivity].
@@ -333,7 +399,14 @@ Proof.
   - rewrite IH. reflexivity.
   - rewrite IH. reflexivity.
   - rewrite IH. reflexivity.
-  - f_equal. rewrite map_map. apply map_ext_in. intros a Ha. rewrite Forall_forall in IH. apply IH. exact Ha.
+  - change (gen o fc rq p (SAny (map to_d6 alts)) = gen o fc rq p (SAny alts)). rewrite !gen_any.
+    assert (E1 : existsb is_snullt (map to_d6 alts) = existsb is_snullt alts).
+    { rewrite existsb_map. apply existsb_ext_in'. intros a _. destruct a; reflexivity. }
+    assert (E2 : alt_types o fc rq (map to_d6 alts) = alt_types o fc rq alts).
+    { unfold alt_types. rewrite flat_map_map. apply flat_map_ext_in. intros a Ha.
+      replace (is_snullt (to_d6 a)) with (is_snullt a) by (destruct a; reflexivity).
+      destruct (is_snullt a); [reflexivity|]. f_equal. rewrite Forall_forall in IH. apply IH. exact Ha. }
+    rewrite E1, E2. reflexivity.
   - rewrite map_fst_keep.
     destruct (assign_names U0 Pyd o [] [] (map fst props)) as [names|]; [|reflexivity].
     f_equal. f_equal. rewrite map_map. cbn [fst snd]. apply map_ext_in. intros q Hq. rewrite Forall_forall in IH.
